@@ -28,7 +28,6 @@ let () =
        with _ -> ())
 
 (* ---------- conversions ---------- *)
-let rec nat_of_int n = if n <= 0 then O else S (nat_of_int (n - 1))
 let nat_of_int n = (* tail recursive *)
   let rec go acc k = if k <= 0 then acc else go (S acc) (k - 1) in go O n
 let int_of_nat n = let rec go acc = function O -> acc | S m -> go (acc + 1) m in go 0 n
@@ -156,6 +155,15 @@ let read_file path = let ic = open_in_bin path in let n = in_channel_length ic i
 
 exception Oracle_missing of string
 
+(* IEEE bits (decimal string) -> Flocq binary32, cached: F32.of_bits costs ~40 us *)
+let f32_cache : (string, F32.t) Hashtbl.t = Hashtbl.create 4096
+let f32_of_bits_cached (b : string) : F32.t =
+  match Hashtbl.find_opt f32_cache b with
+  | Some f -> f
+  | None -> let f = F32.of_bits (z_of_int (int_of_string b)) in
+      if Hashtbl.length f32_cache > 200000 then Hashtbl.reset f32_cache;
+      Hashtbl.add f32_cache b f; f
+
 (* one case, generic in the cell type *)
 let run_case (type c) ~(fmt : string) ~(mode : string) ~(get : string -> string option) ~(obs_field : string -> string option)
     ~(k : int) ~(cell : string -> c) ~(ceqb : c -> c -> bool) ~(zero : c) ~(value : n list -> c)
@@ -276,19 +284,20 @@ let () =
                   ~model_stop:(fun cs -> if fmt = "jaspar" then jaspar_read caps cs else jaspar16_read alphabet caps cs)
                   ~model_calls:(fun n cs -> j_calls precord (nat_of_int n) caps cs)
             | "uniprobe" ->
+                (* oracle table token -> f32 bits (Rust's str::parse::<f32>, printed by the harness) *)
                 let tab = Hashtbl.create 64 in
                 List.iter (fun e -> match String.index_opt e ':' with
                     | Some i -> Hashtbl.replace tab (String.sub e 0 i) (String.sub e (i + 1) (String.length e - i - 1))
                     | None -> ()) (split ',' (Option.value (obs_field "ft") ~default:""));
-                let parse_f32 (tok : n list) : z option =
+                let parse_f32 (tok : n list) : F32.t option =
                   let s = string_of_bytes tok in
                   match Hashtbl.find_opt tab s with
                   | Some "x" -> None
-                  | Some b -> Some (z_of_int (int_of_string b))
+                  | Some b -> Some (f32_of_bits_cached b)
                   | None -> raise (Oracle_missing s) in
-                let value tok = match parse_f32 tok with Some b -> b | None -> Z0 in
+                let value tok = match parse_f32 tok with Some b -> b | None -> F32.zero in
                 run_case ~fmt ~mode ~get ~obs_field ~k
-                  ~cell:(fun s -> z_of_int (int_of_string s)) ~ceqb:Z.eqb ~zero:Z0 ~value ~alphabet
+                  ~cell:f32_of_bits_cached ~ceqb:(fun (a : F32.t) b -> a = b) ~zero:F32.zero ~value ~alphabet
                   ~model_stop:(fun cs -> uniprobe_read alphabet parse_f32 cs)
                   ~model_calls:(fun n cs -> uniprobe_calls alphabet parse_f32 false (nat_of_int n) cs)
             | _ -> "OK"   (* a case of another group *)
